@@ -272,8 +272,15 @@ def regions(u: B.Universe, value, factory="dict"):
                     continue
                 if "any" in it:
                     continue
-                elif "derived" in it or ("obj" in it and md.get("type") == "Wildcard"):
-                    # a model instance under a wildcard, plain or wrapped without xsi:type: no type tag
+                elif "derived" in it:
+                    inner = it["derived"]["value"]
+                    if isinstance(inner, dict) and "obj" in inner:
+                        if not it["derived"]["type"]:
+                            # a model instance wrapped without xsi:type: no type tag
+                            found.add("C04-derived-without-type")
+                        walk_obj(inner, None)
+                elif "obj" in it and md.get("type") == "Wildcard":
+                    # a plain model instance under a wildcard: no type tag
                     found.add("C04-derived-without-type")
                 elif "obj" in it:
                     if md.get("type") == "Elements":
